@@ -36,7 +36,7 @@ def gen(rng, tier):
         inp["lib"] = rng.random() < 0.2
     # discard: fire-and-forget use - the caller does not keep the returned future; the function must
     # still be called once all inputs have resolved
-    spec = {"ins": ins, "fn_raises": rng.random() < 0.15, "settle": 5.0, "discard": rng.random() < 0.2}
+    spec = {"ins": ins, "fn_raises": rng.random() < 0.15, "settle": 5.0, "discard": rng.random() < 0.2, "falsy_exc": rng.random() < 0.15}
     spec["sim"] = runner.draw_sim_cfg(rng, est=500)
     spec["sim"]["horizon_s"] = 5000
     return spec
@@ -62,7 +62,7 @@ def run(spec, env):
 
     for i, inp in enumerate(ins):
         if inp["end"] == "exc":
-            values[i] = env.exc(("in", i))
+            values[i] = env.exc(("in", i), "FalsyErr" if spec.get("falsy_exc") else "ScriptedError")
         elif inp["role"] == "fn":
             values[i] = the_fn
         else:
